@@ -147,6 +147,18 @@ func init() {
 				return
 			}
 			c.Outcome("tag", fmt.Sprint(class), errType(err))
+			if class == ref.TagReject && n <= 5 && !withOpt {
+				// the same malformed tag on a field of a positional-args struct is no less malformed
+				pos := reflect.StructOf([]reflect.StructField{sfield("A", strT, full), sfield("B", strT, "")})
+				_, perr, ppan := c19Parse([]reflect.StructField{sfield("Args", pos, `positional-args:"yes"`)})
+				if ppan != nil {
+					c.Fail("panic-on-tag|positional|"+panicClass(ppan), fmt.Sprint(ppan))
+					return
+				}
+				if !isErrType(perr, flags.ErrTag) {
+					c.Fail("malformed-tag-not-ErrTag|positional-field|"+errType(perr), fmt.Sprint(perr))
+				}
+			}
 			switch class {
 			case ref.TagReject:
 				c.Hit("tag-reject")
@@ -624,7 +636,7 @@ func init() {
 		Rule: "(i) every tag string of length <= 8 (quick) / <= 9 (thorough) over {a : \" \\ space LF}, alone and behind a well-formed long:\"opt\", classified by a reference tag grammar (accept / reject / grey); " +
 			"(ii) 9 option attributes x 15 values (blanks, quotes, backslashes, line breaks, tabs, multi-byte text, empty, colons) x 3 escape renderings (strconv.Quote, all-\\xNN, octal+raw) x 1..3 repetitions x 1..3 blanks; " +
 			"(iii) required/optional/hidden x 9 spellings x present/absent x short names of 0/1/2 characters incl. multi-byte; (iv) group name/namespace/env-namespace, command name + 0..3 aliases, two commands in non-alphabetical order (Commands() keeps the declaration order), descriptions, positional names, ranges and minimum counts (0..4) x values x renderings; " +
-			"(v) every pair of placements {top, plain subgroup, namespaced, doubly namespaced} x {same name, near miss, collision created by namespaces} x {long, short incl. non-ASCII} x {declared through NewParser, on a subcommand's struct, added with (*Group).AddGroup to an existing group, NewNamedParser with NamespaceDelimiter \"-\" set before AddGroup}; (every declaration whose first field's tag has an even length is followed by a successful AddGroup before the first use: a setup error must survive it); (vi) default tags on bool / []bool / *bool / []*bool / **bool / *[]bool / func() vs string types; " +
+			"(v) every pair of placements {top, plain subgroup, namespaced, doubly namespaced} x {same name, near miss, collision created by namespaces} x {long, short incl. non-ASCII} x {declared through NewParser, on a subcommand's struct, added with (*Group).AddGroup to an existing group, NewNamedParser with NamespaceDelimiter \"-\" set before AddGroup}; (malformed tag strings of <= 5 bytes also on a field of a positional-args struct; every declaration whose first field's tag has an even length is followed by a successful AddGroup before the first use: a setup error must survive it); (vi) default tags on bool / []bool / *bool / []*bool / **bool / *[]bool / func() vs string types; " +
 			"oracle: exported model fields echo the attributes exactly, malformed tags => ErrTag, long short name => ErrShortNameTooLong, bool default => ErrInvalidTag, colliding names => ErrDuplicatedFlag, never a panic; distinct = distinct (part, cell, error class)",
 		Assumptions:  []string{"keys containing control characters or backslashes, and empty keys, are grey (no panic, any error typed)", "single-valued keys are repeated with the same value only", "falsy spellings false/no/0 do not set a mark on options (pinned by the repository's tests)"},
 		RequiredHits: []string{"tag-reject", "tag-accept", "tag-grey", "echo:default", "echo:choice", "mark:required", "short-too-long", "structure", "duplicate", "near-collision", "bool-default"},
